@@ -47,6 +47,7 @@ type c15Plan struct {
 var c15Kinds = []string{
 	"id-unknown", "id-retired", "id-other-pending", "type-changed", "payload-flip", "payload-append", "payload-empty", "event-empty",
 	"request-itself", "to-changed", "createdat-changed", "extradata-changed", "round-changed", "event-other", "resultmsgs-dropped", "resultmsg-data-changed",
+	"resultmsgs-many",
 }
 
 func c15Gen(rt *rapid.T) c15Plan {
@@ -242,6 +243,25 @@ func c15Run(t *testing.T, st *vstat.Stats, p c15Plan) (v *viol) {
 				sub.Event = fsm.Event([]string{"event_dkg_commit_confirm_canceled_by_error", "event_signing_partial_sign_error_received", "some_event"}[mu.A%3])
 			case "resultmsgs-dropped":
 				sub.ResultMsgs = nil
+			case "resultmsgs-many":
+				// a result as long as the deals step of a big round yields (one message per participant), optionally with
+				// sender and signature fields already filled in by whoever wrote the file: the node posts exactly these,
+				// in this order, under its own name and signature
+				k := 1 + mu.A%64
+				base := sub.ResultMsgs
+				if len(base) == 0 {
+					base = []storage.Message{{DkgRoundID: sub.DKGIdentifier, Event: string(sub.Event), Data: []byte(`{}`)}}
+				}
+				sub.ResultMsgs = nil
+				for i := 0; i < k; i++ {
+					m := base[i%len(base)]
+					m.Data = append(append([]byte(nil), m.Data...), bytes.Repeat([]byte(" "), i/len(base))...)
+					m.RecipientAddr = fmt.Sprintf("recipient-%d", i)
+					if mu.A%2 == 1 {
+						m.SenderAddr, m.Signature = "someone_else", []byte("not a signature")
+					}
+					sub.ResultMsgs = append(sub.ResultMsgs, m)
+				}
 			case "resultmsg-data-changed":
 				if len(sub.ResultMsgs) == 0 {
 					continue
